@@ -464,7 +464,11 @@ func init() {
 			var script []string
 			nq := 1 + r.intn(6)
 			for q := 0; q < nq; q++ {
-				switch r.intn(11) {
+				kind := r.intn(11)
+				if len(args) > 1 && args[1] == "search" {
+					kind = 6 + r.intn(5) // searches only: completed, ended by the deadline, stopped at a root or an inner node
+				}
+				switch kind {
 				case 0:
 					script = append(script, fmt.Sprintf("perft %d", 1+r.intn(2)))
 				case 1:
@@ -480,7 +484,7 @@ func init() {
 				case 6:
 					script = append(script, fmt.Sprintf("go depth %d", 1+r.intn(3)))
 				case 7:
-					script = append(script, "go movetime 15")
+					script = append(script, fmt.Sprintf("go movetime %d", []int{1, 2, 5, 15}[r.intn(4)]))
 				case 8:
 					script = append(script, fmt.Sprintf("go infinite @%d,%d", 1+r.intn(3), r.intn(3)))
 				default:
